@@ -173,12 +173,39 @@ def run(ctx: Ctx) -> None:
 
     # ---- C11-4 commit rule
     tc = prog.func(RAFT, "RaftNode._try_advance_commit")
-    guard(ctx, "C11-4", tc, "newly_committed = self._log.advance_commit(n)", ["not entry.term != self._current_term", "count >= self.quorum_size"],
+    # the tally may be spelled as a counting loop or as `1 + sum(1 for m in match_index.values() if m >= n)`; its name is free
+    tff = ctx.flow(tc)
+    adv = stmts_matching(tc, "newly_committed = self._log.advance_commit(n)")
+    need(len(adv) == 1, "C11-4: _try_advance_commit must advance the commit index at exactly one site")
+    advn = node_of(tff.cfg, adv[0][0])
+    tallies = sorted({b_ for (op_, a_, b_) in tff.facts_at(advn) if op_ == "le" and a_ == "self.quorum_size"}, key=lambda t_: (not t_.isidentifier(), t_))
+    tally = tallies[0] if tallies else "count"
+    guard(ctx, "C11-4", tc, "newly_committed = self._log.advance_commit(n)", ["not entry.term != self._current_term", f"{tally} >= self.quorum_size"],
           "the leader commits index n only for an entry of its current term replicated on a quorum")
-    cnt = [s for s in walk_stmts(tc.node.body) if increment_of(s, "count") == 1]
-    okc = len(cnt) == 1 and ctx.flow(tc).holds_at(node_of(ctx.flow(tc).cfg, cnt[0]), Fact("le", "n", "match_idx"))
-    init = stmts_matching(tc, "count = 1")
-    ctx.ob("C11-4", "G1", tc, cnt[0] if cnt else None, okc and len(init) == 1, "a follower counts towards index n only if its match_index >= n (the leader counts itself once)")
+    cnt = [s for s in walk_stmts(tc.node.body) if increment_of(s, tally) == 1]
+    defs = [s for s in walk_stmts(tc.node.body) if isinstance(s, ast.Assign) and path_of(s.targets[0]) == tally]
+    if not tally.isidentifier():
+        # the tally is written out in the quorum test itself
+        defs = [ast.Assign(targets=[ast.Name(id="_", ctx=ast.Store())], value=ast.parse(tally, mode="eval").body)]
+    okc, anchor = False, (cnt[0] if cnt else (defs[0] if defs and tally.isidentifier() else adv[0][0]))
+    if len(cnt) == 1 and len(defs) == 1:
+        # counting loop: starts at 1 (self), one increment per follower, under match_index >= n, iterating the match_index values
+        loops = [s for s in walk_stmts(tc.node.body) if isinstance(s, ast.For) and cnt[0] in list(walk_stmts(s.body))]
+        inner = loops[-1] if loops else None
+        okc = isinstance(defs[0].value, ast.Constant) and defs[0].value.value == 1 and inner is not None and isinstance(inner.target, ast.Name) \
+            and unparse(inner.iter).replace(" ", "") == "self._match_index.values()" and tff.holds_at(node_of(tff.cfg, cnt[0]), Fact("le", "n", inner.target.id))
+    elif not cnt and len(defs) == 1:
+        # closed form: 1 + sum(1 for m in self._match_index.values() if m >= n)   (either operand order)
+        v = defs[0].value
+        if isinstance(v, ast.BinOp) and isinstance(v.op, ast.Add):
+            one, agg = (v.left, v.right) if isinstance(v.left, ast.Constant) else (v.right, v.left)
+            if isinstance(one, ast.Constant) and one.value == 1 and isinstance(agg, ast.Call) and path_of(agg.func) == "sum" and len(agg.args) == 1 \
+                    and isinstance(agg.args[0], (ast.GeneratorExp, ast.ListComp)) and len(agg.args[0].generators) == 1:
+                g = agg.args[0].generators[0]
+                elt = agg.args[0].elt
+                okc = isinstance(elt, ast.Constant) and elt.value == 1 and isinstance(g.target, ast.Name) and unparse(g.iter).replace(" ", "") == "self._match_index.values()" \
+                    and len(g.ifs) == 1 and {f.sig for f in atoms(g.ifs[0], True)} == {("le", "n", g.target.id)}
+    ctx.ob("C11-4", "G1", tc, anchor, okc, "a follower counts towards index n only if its match_index >= n (the leader counts itself once)")
     qs = prog.func(RAFT, "RaftNode.quorum_size")
     rets = [s for s in walk_stmts(qs.node.body) if isinstance(s, ast.Return)]
     tot = stmts_matching(qs, "total = len(self._peers) + 1")
@@ -280,6 +307,9 @@ def run(ctx: Ctx) -> None:
 
 
 MUTANTS = [
+    ("tally-closed-form-strict", RAFT, '            count = 1  # self\n            for match_idx in self._match_index.values():\n                if match_idx >= n:\n                    count += 1\n', '            count = 1 + sum(1 for m in self._match_index.values() if m > n)\n', "C11-4"),
+    ("tally-closed-form-counts-self-twice", RAFT, '            count = 1  # self\n            for match_idx in self._match_index.values():\n                if match_idx >= n:\n                    count += 1\n', '            count = 2 + sum(1 for m in self._match_index.values() if m >= n)\n', "C11-4"),
+    ("tally-closed-form-counts-everyone", RAFT, '            count = 1  # self\n            for match_idx in self._match_index.values():\n                if match_idx >= n:\n                    count += 1\n', '            count = 1 + sum(1 for m in self._match_index.values())\n', "C11-4"),
     ("truncate-from-skips-index-one", LOG, "        if index < 1 or index > len(self._entries):\n            return 0\n        removed", "        if not 1 < index <= len(self._entries):\n            return 0\n        removed", "C11-5"),
     ("heal-keeps-partition-handles", NETW, "        self._partitioned_pairs.clear()", "        self._partitioned_pairs.clear()\n        self._active_partitions = list(self._active_partitions)", "C11-NONE"),
     ("heal-forgets-partition-handles", NETW, "        self._active_partitions.clear()\n", "", "C11-9"),
@@ -307,5 +337,6 @@ MUTANTS = [
 ]
 MUTANTS = [m for m in MUTANTS if m[4] != "C11-NONE"]
 REFACTORS = [
+    ("tally-closed-form", RAFT, '            count = 1  # self\n            for match_idx in self._match_index.values():\n                if match_idx >= n:\n                    count += 1\n', '            count = 1 + sum(1 for m in self._match_index.values() if m >= n)\n'),
     ("vote-test-split", RAFT, "        if term > self._current_term:\n            self._step_down(term)\n\n        vote_granted = False", "        if self._current_term < term:\n            self._step_down(term)\n\n        vote_granted = False"),
 ]
